@@ -147,7 +147,8 @@ def spell_alpha(rng, rgb, alpha, kind=None):
 
 
 POISON_STR = ["nope", "#12", "#12345", "rgb(300,0,0)", "rgb(1,2)", "", " ", "inherit", "currentcolor", "transparent",
-              "var(--x)", "hsl(120)", "#ggg", "rgb(a,b,c)", "12", "url(x)", "rgba(1,2,3,7e9)"]
+              "var(--x)", "hsl(120)", "#ggg", "rgb(a,b,c)", "12", "url(x)", "rgba(1,2,3,7e9)",
+              "[/]", "[/b]", "#[/b]", "var[/x]", "[bold]red", "{0}", "%s", "%(x)s", "\\", "red\n", "<b>", "a\x00b", "\t\n"]
 POISON_OBJ = [None, (1, 2), (1, 2, 3, 4, 5), (300, 0, 0), (-1, 0, 0), ("a", "b", "c"), 3.5, (None, None, None), [], ()]
 CSS_KEYWORDS = ["inherit", "currentcolor", "transparent", "initial", "unset", "currentColor"]
 
@@ -258,10 +259,10 @@ def pick_text(rng, bg, thr, band):
 ALL_FEATURES = (
     "vars", "var-fallback", "var-undefined", "var-chain", "var-shared", "root-direct-color", "root-and-html",
     "important", "repeat-decl", "prop-case", "nesting", "bg-var", "keywords", "opaque-atrules", "vendor-hacks",
-    "star-hack", "non-ascii", "crlf", "bom", "cdo-cdc", "alpha-text", "comments", "no-color-rules", "odd-strings", "dup-root", "nested-root", "unicode-seps", "dup-selectors", "own-colour-elsewhere", "css-nesting", "comment-in-value", "stale-charset",
+    "star-hack", "non-ascii", "crlf", "bom", "cdo-cdc", "alpha-text", "comments", "no-color-rules", "odd-strings", "dup-root", "nested-root", "unicode-seps", "dup-selectors", "own-colour-elsewhere", "css-nesting", "comment-in-value", "stale-charset", "var-names", "nested-root-color",
 )
 # features outside what the reference cascade of C08 models or what C08's statement quantifies over
-C09_ONLY = ("opaque-atrules", "vendor-hacks", "star-hack", "crlf", "bom", "cdo-cdc", "odd-strings", "dup-root", "nested-root", "unicode-seps", "dup-selectors", "css-nesting", "comment-in-value", "stale-charset")
+C09_ONLY = ("opaque-atrules", "vendor-hacks", "star-hack", "crlf", "bom", "odd-strings", "dup-root", "unicode-seps", "dup-selectors", "css-nesting", "comment-in-value", "stale-charset", "nested-root-color")
 
 _SEL_FORMS = (".r%d", "#id%d", "a.x%d:hover", "div > p.k%d", "[data-x=\"%d\"]", "ul li.i%d", "h%d", "p.c%d::before", "a.u%d, a.u%d:visited",
               "input[type='text'].q%d", "a+b.s%d", "li ~ li.t%d")
@@ -352,6 +353,14 @@ class SheetGen:
         name = "--c%d" % len(self.vars)
         if self.rng.random() < 0.2:
             name = "--%s-%d" % (self.rng.choice(("text", "brand", "fg_x", "Main")), len(self.vars))
+        if "var-names" in self.feats and self.vars and self.rng.random() < 0.5:
+            # names that only differ in letter case, or where one is a prefix of the other (custom property names
+            # are case-sensitive and matched exactly)
+            base_name = self.rng.choice(self.vars)[0]
+            cand = self.rng.choice((base_name.upper().replace("--", "--", 1) if base_name != base_name.upper() else base_name.lower(),
+                                    base_name[:2] + base_name[2:].capitalize(), base_name + "-muted", base_name + "2", base_name + "_"))
+            if cand not in [v[0] for v in self.vars] and cand.startswith("--"):
+                name = cand
         val = value if value is not None else self.literal(rgb)
         self.vars.append((name, rgb, val))
         return name
@@ -368,8 +377,8 @@ class SheetGen:
             # The very same translucent string is often reused by later rules on OTHER backgrounds.
             if getattr(self, "_alpha_reuse", None) and r.random() < 0.6:
                 return self._alpha_reuse, "alpha"
-            a = r.choice((0.5, 0.25, 0.75, 0.9))
-            src = tuple(max(0, min(255, int(round((c - (1 - a) * b) / a)))) for c, b in zip(rgb, bg))
+            a = r.choice((0.5, 0.25, 0.75, 0.9, 0.5, 0.25, 0.0, 1.0))
+            src = tuple(max(0, min(255, int(round((c - (1 - a) * b) / a)))) for c, b in zip(rgb, bg)) if a > 0 else rand_rgb(r)
             self._alpha_reuse = spell_alpha(r, src, a, r.choice(CSS_ALPHA_SPELLINGS))[0]
             return self._alpha_reuse, "alpha"
         if "vars" in f and r.random() < 0.45:
@@ -402,7 +411,12 @@ class SheetGen:
         m = r.random()
         if m < 0.55:
             bg_rgb = rand_rgb(r)
-            if "bg-var" in f and "vars" in f and r.random() < 0.3:
+            if "alpha-text" in f and r.random() < 0.08:
+                # a translucent background-color (alpha 0 included): what shows is its blend over white
+                a = r.choice((0.0, 0.0, 0.5, 0.9))
+                v = spell_alpha(r, bg_rgb, a, r.choice(CSS_ALPHA_SPELLINGS))[0]
+                bg_rgb = tuple(int(round(a * c + (1 - a) * 255)) for c in bg_rgb)
+            elif "bg-var" in f and "vars" in f and r.random() < 0.3:
                 v = "var(%s)" % self.new_var(bg_rgb)
                 if "var-fallback" in f and r.random() < 0.4:
                     v = v[:-1] + ", %s)" % self.literal(rand_rgb(r))
@@ -572,9 +586,16 @@ class SheetGen:
             # a :root / html rule inside @media (conditional tokens, e.g. a dark theme): not a top-level block
             inner = {"t": "rule", "sel": r.choice((":root", "html")), "decls": [
                 {"p": "--c0", "v": self.literal(rand_rgb(r)), "imp": ""}, {"p": "--theme%d" % r.randrange(5), "v": self.literal(rand_rgb(r)), "imp": ""}]}
-            if r.random() < 0.5:
+            if "nested-root-color" in f and r.random() < 0.5:
                 inner["decls"].append({"p": "color", "v": self.literal(rand_rgb(r)), "imp": ""})
-            items.insert(r.randrange(len(items) + 1), {"t": "at", "name": "media", "prelude": "(prefers-color-scheme: dark)", "items": [inner]})
+            if r.random() < 0.6:
+                # a rule in the same conditional block that reads a token defined only there
+                inner["decls"].append({"p": "--cond-only", "v": self.literal(rand_rgb(r)), "imp": ""})
+                user = {"t": "rule", "sel": self.selector(), "decls": [{"p": "color", "v": r.choice(("var(--cond-only)", "var(--cond-only, %s)" % self.literal(rand_rgb(r)), "var(--theme0)")), "imp": ""}]}
+                items.insert(r.randrange(len(items) + 1), {"t": "at", "name": "media", "prelude": "(prefers-color-scheme: dark)", "items": [inner, user]})
+                inner = None
+            if inner is not None:
+                items.insert(r.randrange(len(items) + 1), {"t": "at", "name": "media", "prelude": "(prefers-color-scheme: dark)", "items": [inner]})
         for b in blocks:
             pos = r.choice((0, 0, len(items), r.randrange(len(items) + 1)))
             items.insert(pos, b)
